@@ -722,6 +722,8 @@ type scenario struct {
 	first any
 	sepOK int
 	sepN  int
+
+	cbPanic string
 }
 
 var allKeys = map[string]bool{}
@@ -738,7 +740,19 @@ func (sc *scenario) poll(until func() bool, what string) error {
 		if time.Now().After(deadline) {
 			return fmt.Errorf("scenario %d: %s did not complete within 8s", sc.sid, what)
 		}
-		_ = sc.ioc.RunOneFor(2 * time.Millisecond)
+		func() {
+			// completion handlers run on this goroutine: a panic in one of them
+			// (or in the library code that calls it) is an observation
+			defer func() {
+				if r := recover(); r != nil {
+					sc.cbPanic = fmt.Sprint(r)
+				}
+			}()
+			_ = sc.ioc.RunOneFor(2 * time.Millisecond)
+		}()
+		if sc.cbPanic != "" {
+			return nil
+		}
 	}
 	return nil
 }
@@ -768,6 +782,7 @@ func (sc *scenario) round(rn int, rd Round) error {
 	// ---- the handshake ----
 	var herr error
 	cbs := 0
+	panicked := "" // a panic inside the library (recoverable on this goroutine only)
 	finish := func(err error) {
 		cbs++
 		herr = err
@@ -778,11 +793,25 @@ func (sc *scenario) round(rn int, rd Round) error {
 		}
 	}
 	if p.Mode == "sync" {
-		finish(sc.ws.Handshake(url, extraHeaders(p.Xreq)...))
+		func() {
+			defer func() {
+				if r := recover(); r != nil {
+					panicked = fmt.Sprint(r)
+					finish(errors.New("panic"))
+				}
+			}()
+			finish(sc.ws.Handshake(url, extraHeaders(p.Xreq)...))
+		}()
 	} else {
 		sc.ws.AsyncHandshake(url, func(err error) { finish(err) }, extraHeaders(p.Xreq)...)
 		if err := sc.poll(func() bool { return cbs > 0 }, "AsyncHandshake"); err != nil {
 			return err
+		}
+		if sc.cbPanic != "" {
+			panicked = sc.cbPanic
+			if cbs == 0 {
+				finish(errors.New("panic"))
+			}
 		}
 		// a second invocation would have been posted by now
 		for k := 0; k < 3; k++ {
@@ -791,8 +820,11 @@ func (sc *scenario) round(rn int, rd Round) error {
 	}
 	res := base
 	res.Ev, res.Err, res.State, res.Cbs, res.Pending = "Result", errClass(herr), sc.ws.State().String(), cbs, sc.ws.Pending()
+	if panicked != "" {
+		res.Err, res.Cbs = "panic", 1
+	}
 	if herr != nil {
-		res.Note = herr.Error()
+		res.Note = herr.Error() + " " + panicked
 		if len(res.Note) > 120 {
 			res.Note = res.Note[:120]
 		}
@@ -812,11 +844,18 @@ func (sc *scenario) round(rn int, rd Round) error {
 		for len(msgs) < 8 {
 			var g *got
 			if p.Mode == "sync" {
-				f, err := sc.ws.NextFrame()
-				rerr = err
-				if err == nil {
-					g = &got{byte(f.Opcode()), append([]byte{}, f.Payload()...)}
-				}
+				func() {
+					defer func() {
+						if r := recover(); r != nil {
+							panicked = fmt.Sprint(r)
+						}
+					}()
+					f, err := sc.ws.NextFrame()
+					rerr = err
+					if err == nil {
+						g = &got{byte(f.Opcode()), append([]byte{}, f.Payload()...)}
+					}
+				}()
 			} else {
 				fired := false
 				sc.ws.AsyncNextFrame(func(err error, f websocket.Frame) {
@@ -829,8 +868,11 @@ func (sc *scenario) round(rn int, rd Round) error {
 				if err := sc.poll(func() bool { return fired }, "AsyncNextFrame"); err != nil {
 					return err
 				}
+				if sc.cbPanic != "" {
+					panicked = sc.cbPanic
+				}
 			}
-			if g == nil {
+			if g == nil || panicked != "" {
 				break
 			}
 			m := base
@@ -849,6 +891,9 @@ func (sc *scenario) round(rn int, rd Round) error {
 		end.Err = errClass(rerr)
 		if stopped {
 			end.Err = "stopped"
+		}
+		if panicked != "" {
+			end.Err, end.Note = "panic", panicked
 		}
 	}
 	end.Ndeliv = len(msgs)
@@ -903,8 +948,13 @@ func (sc *scenario) round(rn int, rd Round) error {
 		sc.emit(e)
 	}
 	sc.compare(rn, rd, evs)
+	if panicked != "" {
+		return errAbandon
+	}
 	return nil
 }
+
+var errAbandon = errors.New("scenario abandoned after a panic in the library")
 
 // compare the observation with the model's prediction (drift is reported,
 // never a verdict)
@@ -962,11 +1012,35 @@ func Run(a tr.Args) error {
 	sum := tr.Summary{Component: "wshs"}
 	nontrivial := map[string]bool{}
 	sepOK, sepN := 0, 0
+	// modes: "" all scenarios; "from:K" scenarios K.. (after a crash);
+	// "crashed:K" record that the process died with a panic while running
+	// scenario K (a panic on a goroutine of the library cannot be recovered)
+	from, crashed := 0, 0
+	if strings.HasPrefix(a.Mode, "from:") {
+		from, _ = strconv.Atoi(a.Mode[5:])
+	}
+	if strings.HasPrefix(a.Mode, "crashed:") {
+		crashed, _ = strconv.Atoi(a.Mode[8:])
+	}
 	err = tr.Behaviours(a.In, func(idx int, raw json.RawMessage) error {
+		if idx < from || (crashed != 0 && idx != crashed) {
+			return nil
+		}
 		var rounds []Round
 		if err := json.Unmarshal(raw, &rounds); err != nil {
 			return err
 		}
+		if crashed != 0 {
+			p := rounds[0].P
+			b := Ev{C: "wshs", Sid: idx, I: 1, Ev: "Begin", Round: 1, Mode: p.Mode, Kind: p.Kind}
+			w.Emit(b)
+			r := b
+			r.Ev, r.I, r.Err, r.Cbs, r.Note = "Result", 2, "panic", 1, "process died with a panic inside the library during this scenario"
+			w.Emit(r)
+			sum.Scenarios++
+			return nil
+		}
+		_ = os.WriteFile(a.Out+".cur", []byte(strconv.Itoa(idx)), 0o644)
 		ln, err := net.ListenTCP("tcp4", &net.TCPAddr{IP: net.IPv4(127, 0, 0, 1)})
 		if err != nil {
 			return err
@@ -986,6 +1060,9 @@ func Run(a tr.Args) error {
 			sv: &server{ln: ln, port: port, hostport: fmt.Sprintf("127.0.0.1:%d", port)}}
 		for k, rd := range rounds {
 			if err := sc.round(k+1, rd); err != nil {
+				if err == errAbandon {
+					break
+				}
 				return err
 			}
 			p := rd.P
